@@ -221,7 +221,7 @@ func genC19(g *Gen) {
 					}
 					ops = append(ops, "find "+itoa(x), "each")
 					if kind == "dlist" {
-						ops = append(ops, "first", "last")
+						ops = append(ops, "first", "last", "dump")
 					}
 				}
 				if valid {
@@ -308,7 +308,7 @@ func genC19(g *Gen) {
 			if r.Intn(3) == 0 {
 				ops = append(ops, "each")
 				if kind == "dlist" {
-					ops = append(ops, "first", "last")
+					ops = append(ops, "first", "last", "dump")
 				}
 			}
 		}
